@@ -1,6 +1,7 @@
 mod common;
 mod c18;
 mod c17;
+mod merge;
 mod canon;
 
 use common::Args;
@@ -41,6 +42,7 @@ fn main() {
     match args.prop.as_str() {
         "C18" => c18::run(&args),
         "C17" => c17::run(&args),
+        "C13" | "C14" | "C15" | "C16" => merge::run(&args),
         p => { eprintln!("unknown property {}", p); std::process::exit(2); }
     }
 }
